@@ -2664,7 +2664,7 @@ def _addgrid_proc_ci(coord, uset, coordref):
 
 
 def _addgrid_get_uset(nasset, mask, smap):
-    sid = id(nasset)
+    sid = nasset  # (not id(nasset): ids of temporary objects get reused)
     try:
         uset = smap[sid]
     except KeyError:
